@@ -158,7 +158,12 @@ class FThread:
         self.sched.point('join', self)
 
     def close(self):
-        pass
+        # Process.close() reports "still running" while the exit status of a worker that has already exited is being
+        # collected by another thread (starting the workers of another parallelize step polls every child): with
+        # close_race the first close() of the first worker behaves so
+        if getattr(self.sched, 'close_race', False) and self.name == 'w0' and not getattr(self, '_raced', False):
+            self._raced = True
+            raise ValueError('Cannot close a process while it is still running. You should first call join() or terminate().')
 
     def kill(self):
         pass
@@ -176,9 +181,10 @@ def aliased(rows, alias):
     return rows
 
 
-def run_schedule(nworkers, rows, chooser, alias=False):
+def run_schedule(nworkers, rows, chooser, alias=False, close_race=False):
     """runs the real fork() under the scheduler; returns (trace labels, delivered, prefix, error)"""
     sched = Sched(chooser)
+    sched.close_race = close_race
     wcount = itertools.count()
     qcount = itertools.count()
 
@@ -287,6 +293,9 @@ def gen_cases(rng, tier):
             cases[-1]['alias'] = True      # all rows share one mutable value: each worker still gets its own copy
     for n in (1, 2):
         cases.append({'kind': 'random', 'workers': n, 'rows': gen_rows(6, 'some'), 'seed': 7 + n, 'alias': True})
+    # the exit status of a finished worker being collected by another thread when fork() tidies up (see FThread.close)
+    for n in (1, 3):
+        cases.append({'kind': 'random', 'workers': n, 'rows': gen_rows(5, 'some'), 'seed': 11 + n, 'close_race': True})
     if tier == 'thorough':
         cases.append({'kind': 'real_processes', 'workers': 3, 'rows': gen_rows(40, 'some')})
     return cases
@@ -326,7 +335,7 @@ def run_impl(case):
         return {'problem': check_run(rows, got, []), 'seconds': round(time.time() - t0, 1), 'schedules': 1}
     if case['kind'] == 'random':
         r = Rng(case['seed'])
-        trace, delivered, err = run_schedule(n, rows, lambda en, step: en[r.randrange(len(en))], alias=case.get('alias', False))
+        trace, delivered, err = run_schedule(n, rows, lambda en, step: en[r.randrange(len(en))], alias=case.get('alias', False), close_race=case.get('close_race', False))
         return {'problem': check_run(rows, delivered, err), 'labels': to_labels(trace),
                 'delivered': [[d['id'], d['sel'], d['done']] for d in delivered], 'schedules': 1}
     # exhaustive: stateless DFS over choice sequences
